@@ -86,6 +86,9 @@ static struct lp_msg *clone_variant(const struct lp_msg *e, int v)
 		case 4:
 			m->next = (struct lp_msg *)(uintptr_t)0x1000;
 			break;
+		case 6: /* what the buffer holds beyond the payload (recycled buffers are not cleared) */
+			memset(m->pl + m->pl_size, 0xaa, MSG_PAYLOAD_BASE_SIZE + 16 - m->pl_size);
+			break;
 		default:
 			break; /* 5: only the address differs */
 	}
@@ -152,7 +155,7 @@ static void check_relation(const char *rel, int (*R)(const struct lp_msg *, cons
 	/* content only: variants differing in non-content fields are incomparable with the original and compare
 	 * identically against everything */
 	for(int a = 0; a < NE; ++a)
-		for(int v = 0; v < 6; ++v) {
+		for(int v = 0; v < 7; ++v) {
 			struct lp_msg *x = clone_variant(E[a], v);
 			if(R(E[a], x) || R(x, E[a])) {
 				snprintf(sig, sizeof sig, "%s: depends on a non-content field (variant %d)", rel, v);
@@ -187,7 +190,7 @@ int main(int argc, char **argv)
 	check_relation("msg_is_before", R_msg);
 	check_relation("q_elem_is_before", R_q);
 	sx_sample("triple over alphabet of %d events, e.g. %s %s %s", NE, desc[3], desc[17], desc[NE - 1]);
-	sx_sample("variant check: %s with PROCESSED bit / remote id bits / m_seq / dest / next / address changed", desc[5]);
+	sx_sample("variant check: %s with PROCESSED bit / remote id bits / m_seq / dest / next / address / bytes beyond the payload changed", desc[5]);
 	char extra[200];
 	snprintf(extra, sizeof extra, "\"alphabet\": %d, \"relations\": 2", NE);
 	return sx_report("s_cmp", 1, extra);
